@@ -49,6 +49,17 @@ func impostor() {
 		os.Exit(70)
 	}
 	tc := &tls.Config{Certificates: []tls.Certificate{vp.KeyPair(certB, keyB)}, MinVersion: tls.VersionTLS12}
+	switch cfg.ImpChain {
+	case "ipsan", "localhost":
+		// the announced certificate is public: the impostor appends it behind its own leaf. "ipsan": the
+		// announced certificate does not carry the name the host dials with
+		if cfg.ImpChain == "ipsan" {
+			_, _, derA = vp.GenCertIPOnly()
+		}
+		kp := vp.KeyPair(certB, keyB)
+		kp.Certificate = append(kp.Certificate, derA)
+		tc.Certificates = []tls.Certificate{kp}
+	}
 	proto := cfg.ImpostorOf
 	switch proto {
 	case "grpc":
